@@ -162,7 +162,7 @@ func c13Setters(c *choice.Ctx, st *Stats, p int) {
 		call func() error
 		ok   bool
 	}
-	which := c.Choose("setter", 8)
+	which := c.Choose("setter", 9)
 	var s sc
 	switch which {
 	case 0:
@@ -182,7 +182,7 @@ func c13Setters(c *choice.Ctx, st *Stats, p int) {
 		i := c.Choose("ref", len(certNbh))
 		s = sc{"SetCertificationReference", func() error { return cl.SetCertificationReference(certNbh[i]) }, refmodel.CertRefValid(1, certNbh[i])} // class only matters when rejected
 		if p == 2 {
-			s.ok = refmodel.CertRefValid(1, certNbh[i]) // see C11 for the P2 setter's acceptance set
+			s.ok = refmodel.CertRefValid(2, certNbh[i])
 		}
 	case 5:
 		v := []string{"", "x"}[c.Choose("vsi", 2)]
@@ -190,8 +190,11 @@ func c13Setters(c *choice.Ctx, st *Stats, p int) {
 	case 6:
 		v := uint16(c.Choose("lifecycle", 65536))
 		s = sc{"SetSecurityLifeCycle", func() error { return cl.SetSecurityLifeCycle(v) }, refmodel.LifecycleValid(v)}
-	case 7:
+	case 7, 8:
 		comps := genCompList(c)
+		// entries of another component type (a type the container cannot hold): what is wrong with their CONTENT is still
+		// reported with its class
+		foreign := which == 8
 		list := []psatoken.ISwComponent{} // never nil here: nil means "no measurements" (profile 1) / is rejected (profile 2)
 		okAll := true
 		var wantCls []string
@@ -201,7 +204,11 @@ func c13Setters(c *choice.Ctx, st *Stats, p int) {
 				okAll = false
 				continue
 			}
-			list = append(list, realComp(x))
+			if foreign {
+				list = append(list, &AltComp{SwComponent: *realComp(x)})
+			} else {
+				list = append(list, realComp(x))
+			}
 			if !refmodel.CompValid(x) {
 				okAll = false
 			}
@@ -209,7 +216,7 @@ func c13Setters(c *choice.Ctx, st *Stats, p int) {
 		wantCls = refmodel.CompProblems(comps)
 		err := cl.SetSoftwareComponents(list)
 		st.Trans.Add(1)
-		if err != nil {
+		if err != nil && !(foreign && okAll) {
 			got := errClass(err)
 			if okAll || !classIn(got, strings.Join(wantCls, "|")) {
 				c.Failf(fmt.Sprintf("C13:setter:P%d:SetSoftwareComponents:got=%s:want=%s", p, got, strings.Join(wantCls, "|")), "SetSoftwareComponents error %v has class %q, want one of %v", err, got, wantCls)
@@ -232,6 +239,9 @@ func c13Setters(c *choice.Ctx, st *Stats, p int) {
 		}
 		st.Outcome("setter:rejected")
 	} else {
+		if !s.ok {
+			c.Failf(fmt.Sprintf("C13:setter:P%d:%s:malformed-value-yields-no-error", p, s.name), "%s accepted a malformed value: it must fail with an error of the wrong-syntax class", s.name)
+		}
 		st.Outcome("setter:accepted")
 	}
 	// component field setters
